@@ -21,7 +21,6 @@ func checkC07(r *Run) {
 	P := r.P
 	r.NotDecided("the numeric value of trunc(p*10^6*f) (Dec arithmetic, C18)")
 	r.NotDecided("several slashes of one validator in one block as a history")
-	r.NotDecided("the zero-remainder case: burnStakedTokens rejects a zero amount, so a validator slashed to exactly 0 is not force-unstaked (observation recorded in DESIGN.md §5, not claimed)")
 
 	// ------------------------------------------------------------------ R1
 	r.Rule("C07-R1", "slash amount: both the stake reduction and the pool burn receive MaxInt(MinInt(TruncateInt(ToDec(TokensFromConsensusPower(power)).Mul(slashFactor)), validator.StakedTokens), 0) of the validated validator — capped by the current stake, truncated not rounded, power and factor are the parameters", 5)
@@ -158,7 +157,7 @@ func checkC07(r *Run) {
 	}
 
 	// ------------------------------------------------------------------ R5
-	r.Rule("C07-R5", "the slash leaves stake, pool and supply together: removeValidatorTokens and burnStakedTokens receive the same term; ForceValidatorUnstake burns exactly the remaining recorded stake (= C04-R1)", 2)
+	r.Rule("C07-R5", "the slash leaves stake, pool and supply together: removeValidatorTokens and burnStakedTokens receive the same term; ForceValidatorUnstake burns exactly the remaining recorded stake and still unstakes when nothing remains (= C04-R1)", 3)
 	if f := r.fn(posK + "slash"); f != nil {
 		rm, bn := CallsIn(f, posK+"removeValidatorTokens"), CallsIn(f, posK+"burnStakedTokens")
 		if len(rm) == 1 && len(bn) == 1 {
@@ -172,6 +171,11 @@ func checkC07(r *Run) {
 		if c := r.oneCall("C07-R5", "ForceValidatorUnstake", f, posK+"burnStakedTokens"); c != nil {
 			got := argTerm(P.callTerm(c), 2).String()
 			r.Check(got == "param:validator.StakedTokens", "C07-R5", "ForceValidatorUnstake/burns-whole-remainder", P.InstrPos(c), got, "burns "+got+" ; required the whole recorded stake")
+			// a zero remainder must still be force-unstaked: burnStakedTokens rejects a non-positive amount, so the burn must be
+			// skipped (guarded by IsPositive) rather than allowed to fail before the status change
+			ok, _ := HasAtom(P.Guards(c, 0), `^\(types\.Int\)\.IsPositive\(param:validator\.StakedTokens\)$`)
+			r.Check(ok, "C07-R5", "ForceValidatorUnstake/zero-remainder-still-unstaked", P.InstrPos(c), "the burn is attempted only for a positive remainder; a validator slashed to zero proceeds to the status change",
+				"ForceValidatorUnstake burns validator.StakedTokens unconditionally; burnStakedTokens fails for a zero amount, so after a slash of the whole stake the validator keeps status Staked with zero tokens (and handleDoubleSign panics on the error)")
 		}
 	}
 
